@@ -34,7 +34,7 @@ def parseRawNode? (s : String) : Option RawNode :=
   | _ => none
 
 /-- build the tree below node `i` (children in list order); fuel = number of nodes -/
-def buildTree (ns : Array RawNode) : Nat → Nat → Tree (Node Float)
+def buildTree (ns : Array RawNode) : Nat → Nat → RTree (Node Float)
   | fuel, i =>
     let n := ns[i]!
     let nd : Node Float := { id := n.id, p := n.p, q := n.q, r := n.r, x := n.x, vm := 1.0, va := 0.0, isRoot := n.parent.isNone }
@@ -44,11 +44,11 @@ def buildTree (ns : Array RawNode) : Nat → Nat → Tree (Node Float)
       let kids := (List.range ns.size).filter (fun j => (ns[j]!).parent == some i)
       .node nd (kids.map (buildTree ns fuel))
 
-/-- n sweeps as the implementation does them; returns the final voltages and the accumulators of the last backward sweep -/
-def runLF (n : Nat) (t : Tree (Node Float)) : Tree (Node Float) × (Float × Float × Float × Float) :=
+/-- n sweeps as the implementation does them; returns the final voltages and the annotated tree / sums of the last backward sweep -/
+def runLF (n : Nat) (t : RTree (Node Float)) : RTree (Node Float) × RTree (Acc Float × Node Float) × (Float × Float × Float × Float) :=
   let t1 := sweeps (n - 1) t
   let acc := accumulate t1
-  (forward Arith.one Arith.zero acc.2, acc.1)
+  (forward Arith.one Arith.zero acc.2, acc.2, acc.1)
 
 def opsLF (args : List String) : Option String :=
   match args with
@@ -57,8 +57,9 @@ def opsLF (args : List String) : Option String :=
       let ns ← parseList? parseRawNode? nodes
       let arr := ns.toArray
       let root ← (List.range arr.size).find? (fun j => (arr[j]!).parent.isNone)
-      let (t, (pl, ql, pls, qls)) := runLF n (buildTree arr arr.size root)
-      let vs := (Relsad.LoadFlow.nodes t).map (fun nd => s!"{nd.id}:{showFloatBits nd.vm}:{showFloatBits nd.va}")
+      let (t, atr, (pl, ql, pls, qls)) := runLF n (buildTree arr arr.size root)
+      let vs := ((Relsad.LoadFlow.nodes t).zip (Relsad.LoadFlow.nodes atr)).map (fun (nd, (a, _)) =>
+        s!"{nd.id}:{showFloatBits nd.vm}:{showFloatBits nd.va}:{showFloatBits a.lineP}:{showFloatBits a.lineQ}")
       some s!"{",".intercalate vs} {showFloatBits pl} {showFloatBits ql} {showFloatBits pls} {showFloatBits qls}"
   | _ => none
 
